@@ -67,9 +67,13 @@ form('addassign-ident-self-alias', { ops: ['+='] }, F => { const a = F.loc(); re
 form('addassign-localobj-member', { ops: ['+='] }, F => `${F.loc(F.o())}.p += ${F.s()}`)
 form('addassign-this-member', { ops: ['+='], needs: 'this' }, F => `this.p${F.id()} += ${F.s()}`)
 form('addassign-localobj-litkey', { ops: ['+='] }, F => `${F.loc(F.o())}['q'] += ${F.s()}`)
-form('addassign-world-member', { ops: ['+='], kf: 'D5' }, F => `w.o${F.id()}.p += ${F.s()}`)
-form('addassign-call-member', { ops: ['+='], kf: 'D5' }, F => `w.fobj${F.id()}().p += ${F.s()}`)
-form('addassign-computed-effect-key', { ops: ['+='], kf: 'D5' }, F => `${F.loc(F.o())}[${F.f()}] += ${F.s()}`)
+form('addassign-world-member', { ops: ['+='] }, F => `w.o${F.id()}.p += ${F.s()}`)
+form('addassign-call-member', { ops: ['+='] }, F => `w.fobj${F.id()}().p += ${F.s()}`)
+form('addassign-computed-effect-key', { ops: ['+='] }, F => `${F.loc(F.o())}[${F.f()}] += ${F.s()}`)
+form('addassign-member-chain-computed', { ops: ['+='] }, F => `w.o${F.id()}.o2[w.k${F.id()}] += ${F.f()}`)
+form('addassign-update-key', { ops: ['+='] }, F => { const i = F.loc('w.i' + F.id()); return `${F.loc(F.o())}[${i}++] += ${F.s()} + ${i}` })
+form('addassign-this-chain', { ops: ['+='], needs: 'this' }, F => `this.o${F.id()}.p += ${F.s()}`)
+form('addassign-private-like-call-target', { ops: ['+=', 'tpl'] }, F => `w.fobj${F.id()}().q += \`\${${F.s()}}\``)
 form('addassign-destructure', { ops: [], instr: false }, F => { const a = F.loc(); return `[${a}] = [${F.s()}]` })
 form('subassign', { ops: [], instr: false }, F => `${F.loc('w.i' + F.id())} -= w.i${F.id()}`)
 // templates
